@@ -43,8 +43,9 @@ def run_enum(pid, tier):
         base = oracle["base"]
         if oracle["mustReject"]:
             if obs["accepted"]:
-                res.violation("an enum whose discriminants do not fit the base type / whose default marker does not match "
-                              "`defaultable` is accepted", payload(case, obs), kf_class)
+                why = ("an enum over a base that is not a primitive integer type" if base not in SIZES else
+                       "an enum whose discriminants do not fit the base type / whose default marker does not match `defaultable`")
+                res.violation(why + " is accepted", payload(case, obs), kf_class)
             continue
         if not obs["accepted"]:
             continue
@@ -81,7 +82,11 @@ def run_enum(pid, tier):
                         problems.append(f"Default::default() is {dv}, the marked variant is {want[oracle['defaultIdx'] - 1]}")
         if ptr == 4:
             # no execution at width 4: the written literals are read instead
-            got = [v["val"] if isinstance(v["val"], int) else int(v["val"]) for v in it.get("vars", [])]
+            if any(v["val"] == "unknown" for v in it.get("vars", [])):
+                res.notes.append(f"case {cid}: discriminants are not written as literals (not judged at width 4)")
+                got = want
+            else:
+                got = [v["val"] if isinstance(v["val"], int) else int(v["val"]) for v in it.get("vars", [])]
             if got != want:
                 problems.append(f"discriminant literals {got}, declared {want}")
         if ("Default" in it.get("derives", [])) != edef["defaultable"]:
